@@ -355,6 +355,33 @@ fn main() {
             std::fs::write(&out, ok.join("\n")).unwrap();
             return;
         }
+        // id \t kind \t text  ->  lines "E\t<prefix>" / "T\t<prefix>": proper top-level prefixes of pool operands that
+        // are themselves complete expressions / types (used to build histories that would expose any
+        // memoisation of operand validity that is keyed too coarsely)
+        "prefixes" => {
+            let mut lines: Vec<String> = Vec::new();
+            for c in read_cases(&inp) {
+                let stream: TokenStream = match c[2].parse() {
+                    Ok(s) => s,
+                    Err(_) => continue,
+                };
+                let toks: Vec<TokenTree> = stream.into_iter().collect();
+                for i in 1..toks.len() {
+                    let prefix: TokenStream = toks[..i].iter().cloned().collect();
+                    let text = prefix.to_string();
+                    if admitted(&text, "expr").is_ok() {
+                        lines.push(format!("E\t{}", text));
+                    }
+                    if admitted(&text, "type").is_ok() {
+                        lines.push(format!("T\t{}", text));
+                    }
+                }
+            }
+            lines.sort();
+            lines.dedup();
+            std::fs::write(&out, lines.join("\n")).unwrap();
+            return;
+        }
         // id \t text \t expected canonical structure
         "rt" => {
             for c in read_cases(&inp) {
